@@ -32,17 +32,23 @@ class Host:
         self.scenario = scenario
         # rotation: the guest holds G1, the host has dropped its latch and will hand out G2
         # unreadable: the host regards G1 as attested but the local file is damaged (premise of the scenario, not caused by the agent)
-        self.latched = {"fresh": None, "restart": "G1", "rotation": None, "unreadable": "G1"}[scenario]
-        self.next_key = {"fresh": "G1", "restart": "G2", "rotation": "G2", "unreadable": "G1"}[scenario]
+        # lostreply: like fresh, but the reply to the first attestation is lost after the host latched the key
+        self.latched = {"fresh": None, "restart": "G1", "rotation": None, "unreadable": "G1", "lostreply": None}[scenario]
+        self.next_key = {"fresh": "G1", "restart": "G2", "rotation": "G2", "unreadable": "G1", "lostreply": "G1"}[scenario]
+        self.lose_next_reply = scenario == "lostreply"
 
     def plan(self):
         return {"status": {"kind": "doc", "doc": status_doc(self.latched)}, "acquire": {"kind": "key", "guid": self.next_key, "key": KEYS[self.next_key]},
-                "attest": {"kind": "ok"}}
+                "attest": {"kind": "lost" if self.lose_next_reply else "ok"}}
 
     def observe(self, calls):
         for c in calls:
             if c[0] == "attest" and c[2]:
                 self.latched = c[1]
+                self.lose_next_reply = False
+                # a host that latched G1 hands out another key to whoever asks again
+                if self.scenario == "lostreply":
+                    self.next_key = "G2"
 
 
 def prepare_dir(scenario, key_dir):
@@ -118,6 +124,10 @@ def run_once(chk, binp, scenario, n, rng):
             ncalls = len(kp.calls)
             if not kp.alive():
                 break
+            # the invariant holds in every state, not only the last one: look at the directory whenever an iteration has ended
+            desc["calls"] = [(c[0], c[1], c[2]) for c in kp.calls]
+            if not check_dir(chk, key_dir, host, dict(desc, after_iteration=it)):
+                break
             s = keeper.parse_state(kp.ctl("state"))
             if s.get("key", "-,-").split(",")[0] not in ("-", ""):
                 published = True
@@ -182,10 +192,10 @@ def run(chk):
     if not ok:
         chk.broken.append({"kind": "harness", "name": "agent harness build", "why": out[-1500:]})
         return
-    scenarios = ["fresh"] if chk.tier == "quick" else ["fresh", "restart", "rotation", "unreadable"]
+    scenarios = ["fresh"] if chk.tier == "quick" else ["fresh", "restart", "rotation", "unreadable", "lostreply"]
     if chk.tier == "quick":
         # the other scenarios once, without a kill, plus a few kill points each
-        for sc in ("restart", "rotation", "unreadable"):
+        for sc in ("restart", "rotation", "unreadable", "lostreply"):
             run_once(chk, binp, sc, None, rng)
             for n in (rng.rand_range(1, 12), rng.rand_range(13, 40)):
                 run_once(chk, binp, sc, n, rng)
